@@ -90,6 +90,7 @@ pub fn run(args: &Args, seed: u64, report: &Report) -> String {
     let hi = args.u64("--sq-hi", 63) as u8;
     let single_threaded = args.flag("--single-thread");
     let skip_between = args.flag("--no-between");
+    let variants = args.u64("--variants", 5);
     let slider_cases = std::sync::atomic::AtomicU64::new(0);
     let work = |sq: u8, l: &mut Local| {
         for (name, dirs, is_rook) in [("rook", &ROOK, true), ("bishop", &BISHOP, false)] {
@@ -100,12 +101,12 @@ pub fn run(args: &Args, seed: u64, report: &Report) -> String {
             loop {
                 let want = ray_attacks(sq, sub, dirs);
                 // the subset itself + 4 supersets differing only in irrelevant bits
-                for variant in 0..5 {
+                for variant in 0..variants {
                     let occ = match variant {
                         0 => sub,
                         1 => sub | (1u64 << sq),
-                        2 => sub | (rng.next() & !mask),
-                        3 => sub | !mask,
+                        2 => sub | !mask,
+                        3 => sub | (rng.next() & !mask),
                         _ => sub | (rng.next() & rng.next() & !mask),
                     };
                     let got = guarded(|| {
